@@ -63,6 +63,7 @@ type descSpec struct {
 	Info      spsdim.Info   // of the first SPS
 	Infos     []spsdim.Info `json:"-"` // of every supplied SPS, in order
 	Src       string        // generated | <file> (+ "+" further sources of appended SPS)
+	Scaling   []string      `json:"-"` // generated AVC: how the scaling matrix of every SPS is written
 	// aac
 	ObjType int
 	Freq    int
@@ -88,10 +89,21 @@ type trackSpec struct {
 type history struct {
 	Pre      []string // unsupported media type probes interleaved: index -> media string ("" none)
 	Tracks   []trackSpec
-	Resume   int  // >0: after this many tracks the init is encoded, decoded and the history continues on the decoded init
-	ResumeSR bool // decode path used for the resume
+	Resume   int    // >0: after this many tracks the init is encoded, decoded and the history continues on the decoded init
+	ResumeBy string // decode path used for the resume: reader | buffer | slicereader
 	Class    string
+	// Order of the calls: "interleaved" (AddEmptyTrack, its Set*Descriptor, next track ...),
+	// "tracks-first" (every AddEmptyTrack, then the descriptors in track order) or
+	// "tracks-first-permuted" (then the descriptors in the order DescOrder)
+	Order     string
+	DescOrder []int
+	// Mid[i][0]: the init is serialised (a mix of Size / Encode / EncodeSW, MidMask bits 1/2/4) right after
+	// AddEmptyTrack of track i, before its descriptor is set; Mid[i][1]: right after its Set*Descriptor call
+	Mid     [][2]bool
+	MidMask [][2]int
 }
+
+var decodeKinds = []string{"reader", "buffer", "slicereader"}
 
 type pins struct {
 	n       int
@@ -261,9 +273,12 @@ func genAVCSPS(r *runner.Rand, profile int) (p *spsdim.AVCSPS, hi bool) {
 		p.QPPrimeBypass = r.Bool()
 	}
 	hi = spsdim.AVCHighSyntax(p.ProfileIDC)
-	if hi && r.Chance(1, 6) {
+	if hi && r.Chance(1, 4) {
 		p.ScalingMatrix = true
 		p.ScalingSeed = r.Uint64()
+		// two thirds of the matrices hold lists that end early (compact encodings: "use the
+		// default list", or a tail that repeats the last value), the others are written out in full
+		p.ScalingShort = r.Chance(2, 3)
 	}
 	p.Log2MaxFrameNumM4 = uint64(r.Intn(13))
 	p.PocType = uint64(r.PickInt(0, 0, 2, 1))
@@ -357,10 +372,11 @@ func genAVCSPS(r *runner.Rand, profile int) (p *spsdim.AVCSPS, hi bool) {
 // different ids (a stream that switches between them): a copy with another level, and/or one or
 // two SPS drawn independently (other picture size, cropping, profile, level, chroma format, bit
 // depth). infos[i] is what the reference computes for sps[i].
-func genAVC(r *runner.Rand, profile int) (sps, pps [][]byte, infos []spsdim.Info) {
+func genAVC(r *runner.Rand, profile int) (sps, pps [][]byte, infos []spsdim.Info, scaling []string) {
 	p, hi := genAVCSPS(r, profile)
 	sps = append(sps, p.NAL())
 	infos = append(infos, p.Info())
+	scaling = append(scaling, scalingClass(p))
 	ids := []uint64{p.SPSID}
 	if r.Chance(1, 6) { // a second SPS with another id
 		q := *p
@@ -368,6 +384,7 @@ func genAVC(r *runner.Rand, profile int) (sps, pps [][]byte, infos []spsdim.Info
 		q.LevelIDC = 30
 		sps = append(sps, q.NAL())
 		infos = append(infos, q.Info())
+		scaling = append(scaling, scalingClass(&q))
 		ids = append(ids, q.SPSID)
 	}
 	if r.Chance(1, 5) { // further SPS of their own
@@ -380,13 +397,36 @@ func genAVC(r *runner.Rand, profile int) (sps, pps [][]byte, infos []spsdim.Info
 			q.SPSID = (ids[len(ids)-1] + 1) % 32
 			sps = append(sps, q.NAL())
 			infos = append(infos, q.Info())
+			scaling = append(scaling, scalingClass(q))
 			ids = append(ids, q.SPSID)
 		}
 	}
 	for i, n := 0, 1+r.Intn(3); i < n; i++ {
 		pps = append(pps, spsdim.AVCPPS(uint64(i), ids[i%len(ids)], r.Bool(), int64(r.Range(-26, 25)), hi && r.Bool()))
 	}
-	return sps, pps, infos
+	return sps, pps, infos, scaling
+}
+
+// scalingClass names how the scaling matrix of a generated AVC SPS is written (evidence only).
+func scalingClass(p *spsdim.AVCSPS) string {
+	sh := p.ScalingShapes()
+	if sh == nil {
+		return "no scaling matrix"
+	}
+	cnt := map[string]int{}
+	for _, x := range sh {
+		cnt[x]++
+	}
+	var l []string
+	for _, k := range []string{"full", "use-default", "tail-cut"} {
+		if cnt[k] > 0 {
+			l = append(l, k)
+		}
+	}
+	if len(l) == 0 {
+		return "matrix flag set, no list present"
+	}
+	return "lists: " + strings.Join(l, "+")
 }
 
 // genHEVCSPS draws the values of one HEVC SPS.
@@ -619,7 +659,7 @@ func genDesc(r *runner.Rand, media string, pn *pins) descSpec {
 			}
 		}
 		if d.SPS == nil {
-			d.SPS, d.PPS, d.Infos = genAVC(r, pn.profile)
+			d.SPS, d.PPS, d.Infos, d.Scaling = genAVC(r, pn.profile)
 			d.Info = d.Infos[0]
 			d.Src = "generated"
 		}
@@ -748,7 +788,29 @@ func genHistory(r *runner.Rand, idx int) history {
 		}
 		if n >= 2 && r.Chance(1, 8) {
 			h.Resume = 1 + r.Intn(n-1)
-			h.ResumeSR = r.Bool()
+			h.ResumeBy = decodeKinds[r.Intn(len(decodeKinds))]
+		}
+	}
+	h.Order = "interleaved"
+	if h.Class == "random" && n >= 2 {
+		switch x := r.Intn(100); {
+		case x < 25:
+			h.Order = "tracks-first"
+		case x < 40:
+			h.Order = "tracks-first-permuted"
+			h.DescOrder = r.Perm(n)
+		}
+	}
+	// the init is written out between the steps of the history as well (a packager that publishes
+	// the init as soon as it can and again when it is complete)
+	h.Mid = make([][2]bool, n)
+	h.MidMask = make([][2]int, n)
+	for i := 0; i < n; i++ {
+		for k := 0; k < 2; k++ {
+			if r.Chance(1, 4) {
+				h.Mid[i][k] = true
+				h.MidMask[i][k] = r.PickInt(2, 2, 3, 7, 7, 6, 4, 5, 1)
+			}
 		}
 	}
 	return h
@@ -790,7 +852,8 @@ func (h *history) describe() map[string]interface{} {
 		}
 		ts = append(ts, m)
 	}
-	return map[string]interface{}{"tracks": ts, "unsupportedMediaProbes": h.Pre, "resumeAfter": h.Resume, "class": h.Class}
+	return map[string]interface{}{"tracks": ts, "unsupportedMediaProbes": h.Pre, "resumeAfter": h.Resume, "resumeBy": h.ResumeBy, "class": h.Class,
+		"order": h.Order, "descriptorOrder": h.DescOrder, "serialisedBetweenSteps[track][afterAdd,afterDescriptor]": h.Mid, "serialiseCalls(1=Size,2=Encode,4=EncodeSW)": h.MidMask}
 }
 
 func hexList(l [][]byte) []string {
